@@ -114,7 +114,7 @@ def filterEntries (md : List Entry) (substr family role : Option String) (elemen
     | some els => (md.map fun e => { e with versions := e.versions.filter fun v => els.all (v.2.contains ·) }).filter (!·.versions.isEmpty)
     | none => md
   match substr with
-  | some s => if s.isEmpty then md else md.filter fun e => isSubstr (lower s) e.key || isSubstr (lower s) e.display
+  | some s => if s.isEmpty then md else md.filter fun e => isSubstr (lower s) e.key || isSubstr (lower s) (lower e.display)
   | none => md
 
 end BSE.Index
